@@ -357,6 +357,9 @@ def libpass_group(tier):
                 o = call(fn)
                 if o[0] == "exc":
                     g.check(o[2], f"libpass-internal-error:{nm}:{exc_name(o)}:{cname}", f"{cname} raised {exc_name(o)} (neither ValueError nor TypeError)", dict(w, exception=repr(o[1])[:120]))
+                elif cname == "verify" and kind == "sepmove":
+                    # the same characters split differently into salt and digest are another record: it must not verify
+                    g.check(o[1] is not True, f"libpass-altered-verifies:{nm}:sepmove", "a record whose field separator was moved still verifies the original password", dict(w, outcome=repr(o)[:80]))
         for ins in (b"\xff", b"\xfe", b"\x80", b"\xc3", b"A", b"\xc3\xa9"):
             for pos in list(range(0, len(hb), step)) + [len(hb)]:
                 m = hb[:pos] + ins + hb[pos:]
